@@ -417,6 +417,9 @@ func gen(c *harness.C) []harness.Case {
 	if os.Getenv("VERIF_FAMILY") == "forge" {
 		return forgeCases(c)
 	}
+	if os.Getenv("VERIF_FAMILY") == "race" {
+		return append([]harness.Case{concurrentPSCase()}, concurrentBLSCases()...)
+	}
 	type nt struct{ n, t int }
 	blsC := []nt{{3, 2}, {3, 3}, {4, 3}}
 	psC := [][3]int{{3, 2, 1}, {3, 3, 2}, {3, 2, 3}}
